@@ -195,7 +195,7 @@ CHECKS = [
            're-keying) run against a recording stand-in driver. For each operation: the baseline call, every value position set to each of '
            '12 adversarial strings (quotes, backslash, braces, doubled braces, dollar, newline, an injection string, a keyword, empty, '
            'non-ASCII) one position at a time and all jointly, under three environment answers for all calls and every single-call '
-           'deviation. Every recorded (statement, parameters) pair (~150k per run) is judged: balanced brackets and quotes under Cypher '
+           'deviation. Every recorded (statement, parameters) pair (~22k per run) is judged: balanced brackets and quotes under Cypher '
            'string rules, no template residue, named parameters supplied, used variables bound; and the text may differ from the baseline '
            'only inside one string literal that de-escapes to the value. Violations are attributed to the statement-building call site.',
       note='Lexical judgement only (no Cypher parser or server in the sandbox). Eight open findings: call sites that splice stored '
